@@ -795,3 +795,56 @@ pub fn setup_emissions(
         vec![],
     )
 }
+
+/// Real `configure_deleverage_withdrawal_limit` (group admin).
+pub fn configure_deleverage_withdrawal_limit(marginfi_group: Pubkey, admin: Pubkey, daily_withdrawal_limit: u32) -> Instruction {
+    build(
+        marginfi::accounts::ConfigureDeleverageWithdrawalLimit { marginfi_group, admin },
+        marginfi::instruction::ConfigureDeleverageWithdrawalLimit { limit: daily_withdrawal_limit },
+        vec![],
+    )
+}
+
+/// The PDA a `transfer_to_new_account_pda` / `marginfi_account_initialize_pda` account lives at.
+pub fn marginfi_account_pda(group: &Pubkey, authority: &Pubkey, account_index: u16, third_party_id: u16) -> (Pubkey, u8) {
+    Pubkey::find_program_address(
+        &[
+            marginfi_type_crate::constants::MARGINFI_ACCOUNT_SEED.as_bytes(),
+            group.as_ref(),
+            authority.as_ref(),
+            &account_index.to_le_bytes(),
+            &third_party_id.to_le_bytes(),
+        ],
+        &marginfi::ID,
+    )
+}
+
+/// Real `transfer_to_new_account_pda` (free-tier third-party id or none).
+#[allow(clippy::too_many_arguments)]
+pub fn transfer_to_new_account_pda(
+    group: Pubkey,
+    old_marginfi_account: Pubkey,
+    authority: Pubkey,
+    fee_payer: Pubkey,
+    new_authority: Pubkey,
+    global_fee_wallet: Pubkey,
+    account_index: u16,
+    third_party_id: Option<u16>,
+) -> Instruction {
+    let (new_marginfi_account, _) = marginfi_account_pda(&group, &new_authority, account_index, third_party_id.unwrap_or(0));
+    build(
+        marginfi::accounts::TransferToNewAccountPda {
+            group,
+            old_marginfi_account,
+            new_marginfi_account,
+            authority,
+            fee_payer,
+            new_authority,
+            global_fee_wallet,
+            instructions_sysvar: sysvar::instructions::ID,
+            system_program: system_program::ID,
+        },
+        marginfi::instruction::TransferToNewAccountPda { account_index, third_party_id },
+        vec![],
+    )
+}
